@@ -19,13 +19,8 @@ import numpy as np
 from vlib.core import PropertyCheck, TranslatorError
 from vlib import paths
 
-TAU = F(1, 10**6)
-RHO = F(1, 10**12)           # relative gap tolerance of the repaired idle-gap test (fixes/C12-3.patch)
-
-
-def vstr(variant, tau):
-    """variant flags for a driver line; the gap tolerance is scaled together with tau (tightness probe)"""
-    return variant.replace("gaprel=RHO", f"gaprel={fs(RHO * tau / TAU)}")
+RES = F(1, 10**12)          # resolution class: time differences below 1e-12 of the total time are not resolved
+PROBE = (F(1), 1 + F(1, 2**20), 1 - F(1, 2**20))   # scale factors of the tolerance constants (tightness probe)
 Q = 30                      # quantum 2^-Q of the dyadic stream
 
 
@@ -71,74 +66,459 @@ def close_num(xf, r, scale):
 
 
 # ----------------------------------------------------------------------------------------------
-# which first-pulse test does the working tree contain?  (AST, formatting independent)
-_FIRST_TOL = "abs(last_pulse_time) < step_size * 1e-06"
-_FIRST_STRUCT = ("not compiled_tlist[pulse_ind]", "len(compiled_tlist[pulse_ind]) == 0")
+# The source, read with ast (formatting independent).  Every statement of _process_gate_pulse, _process_idling_tlist and
+# _concatenate_pulses is consumed: either it fills a field of the description (constants, comparison operators, operands,
+# end points, slices, ...) or it must be exactly the expected statement; anything else raises TranslatorError.
+SRC_FILE = ("src", "qutip_qip", "compiler", "gatecompiler.py")
+_CMP = {ast.Gt: "gt", ast.GtE: "ge", ast.Lt: "lt", ast.LtE: "le", ast.Eq: "eq", ast.NotEq: "ne"}
+_VARS = {"start_time": 0, "last_pulse_time": 1, "step_size": 2}
 
 
-def detect_variant():
-    path = os.path.join(paths.REPO, "src", "qutip_qip", "compiler", "gatecompiler.py")
+def U(node):
+    return ast.unparse(node)
+
+
+def _fail(msg):
+    raise TranslatorError(msg)
+
+
+def _num(node):
+    """a numeric literal (int / float, optional sign) as the exact decimal it is written as"""
+    if isinstance(node, ast.UnaryOp) and isinstance(node.op, ast.USub):
+        return -_num(node.operand)
+    if isinstance(node, ast.UnaryOp) and isinstance(node.op, ast.UAdd):
+        return _num(node.operand)
+    if isinstance(node, ast.Constant) and isinstance(node.value, (int, float)) and not isinstance(node.value, bool):
+        return F(repr(node.value))
+    _fail("numeric literal expected: " + U(node))
+
+
+def _is_num(node):
+    try:
+        _num(node)
+        return True
+    except TranslatorError:
+        return False
+
+
+def _lin(node):
+    """arithmetic over start_time / last_pulse_time / step_size -> coefficients (start, last, step, const)"""
+    if isinstance(node, ast.Name) and node.id in _VARS:
+        v = [F(0)] * 4
+        v[_VARS[node.id]] = F(1)
+        return tuple(v)
+    if _is_num(node):
+        return (F(0), F(0), F(0), _num(node))
+    if isinstance(node, ast.UnaryOp) and isinstance(node.op, ast.USub):
+        return tuple(-x for x in _lin(node.operand))
+    if isinstance(node, ast.BinOp):
+        if isinstance(node.op, (ast.Add, ast.Sub)):
+            l, r = _lin(node.left), _lin(node.right)
+            sg = 1 if isinstance(node.op, ast.Add) else -1
+            return tuple(x + sg * y for x, y in zip(l, r))
+        if isinstance(node.op, ast.Mult):
+            if _is_num(node.left):
+                k, v = _num(node.left), _lin(node.right)
+            elif _is_num(node.right):
+                k, v = _num(node.right), _lin(node.left)
+            else:
+                _fail("product of two non-constants: " + U(node))
+            return tuple(k * x for x in v)
+        if isinstance(node.op, ast.Div) and _is_num(node.right) and _num(node.right) != 0:
+            k = _num(node.right)
+            return tuple(x / k for x in _lin(node.left))
+    _fail("expression over start_time/last_pulse_time/step_size not recognised: " + U(node))
+
+
+def _cmp(node, what):
+    if not (isinstance(node, ast.Compare) and len(node.ops) == 1 and type(node.ops[0]) in _CMP):
+        _fail(f"{what}: a single comparison expected: " + U(node))
+    return node.left, _CMP[type(node.ops[0])], node.comparators[0]
+
+
+def _times_const(node, names, what):
+    """`<name> * C` or `C * <name>` -> (name, C)"""
+    if isinstance(node, ast.BinOp) and isinstance(node.op, ast.Mult):
+        for a_, b_ in ((node.left, node.right), (node.right, node.left)):
+            if isinstance(a_, ast.Name) and a_.id in names and _is_num(b_):
+                return a_.id, _num(b_)
+    _fail(f"{what}: `<{'|'.join(names)}> * constant` expected: " + U(node))
+
+
+def _func(tree, name):
+    fn = None
+    for node in ast.walk(tree):
+        if isinstance(node, ast.FunctionDef) and node.name == name:
+            fn = node
+    if fn is None:
+        _fail(f"GateCompiler.{name} not found")
+    body = list(fn.body)
+    if body and isinstance(body[0], ast.Expr) and isinstance(body[0].value, ast.Constant) and isinstance(body[0].value.value, str):
+        body = body[1:]
+    return fn, body
+
+
+def _expect(node, texts, what):
+    if isinstance(texts, str):
+        texts = (texts,)
+    if U(node) not in texts:
+        _fail(f"{what}: expected `{texts[0]}`, found `{U(node)}`")
+
+
+def _mode(node, what):
+    if isinstance(node, ast.Constant) and node.value in ("discrete", "continuous"):
+        return node.value
+    _fail(f"{what}: 'discrete' or 'continuous' expected: " + U(node))
+
+
+def _slice(node, base, what):
+    """np.asarray(<base>) or np.asarray(<base>)[a:] / [:-b] / [a:-b] -> (front, back)"""
+    if U(node) == f"np.asarray({base})":
+        return (0, 0)
+    if isinstance(node, ast.Subscript) and U(node.value) == f"np.asarray({base})" and isinstance(node.slice, ast.Slice) \
+            and node.slice.step is None:
+        lo, up = node.slice.lower, node.slice.upper
+        front = 0 if lo is None else _num(lo)
+        back = 0 if up is None else -_num(up)
+        if front.denominator == 1 and back.denominator == 1 and front >= 0 and back >= 0 and not (up is not None and back == 0):
+            return (int(front), int(back))
+    _fail(f"{what}: np.asarray({base}) with a slice [a:] / [:-b] expected: " + U(node))
+
+
+def _len_side(node, what):
+    """len(tlist) / len(coeff), optionally +- an integer -> (name, k)"""
+    k = F(0)
+    if isinstance(node, ast.BinOp) and isinstance(node.op, (ast.Add, ast.Sub)) and _is_num(node.right):
+        k = _num(node.right) * (1 if isinstance(node.op, ast.Add) else -1)
+        node = node.left
+    if isinstance(node, ast.Call) and U(node.func) == "len" and len(node.args) == 1 and U(node.args[0]) in ("tlist", "coeff") \
+            and k.denominator == 1:
+        return U(node.args[0]), int(k)
+    _fail(f"{what}: len(tlist) / len(coeff) (+- integer) expected: " + U(node))
+
+
+def read_proc(tree):
+    fn, body = _func(tree, "_process_gate_pulse")
+    if len(body) != 2 or not isinstance(body[0], ast.If):
+        _fail("_process_gate_pulse: one if/elif chain and a return expected")
+    _expect(body[1], "return (gate_tlist, coeff, step_size, pulse_mode)", "_process_gate_pulse")
+    node = body[0]
+    _expect(node.test, "np.isscalar(tlist)", "_process_gate_pulse, first branch")
+    st = {U(x.targets[0]): x.value for x in node.body if isinstance(x, ast.Assign) and len(x.targets) == 1}
+    if len(st) != len(node.body) or set(st) != {"pulse_mode", "step_size", "coeff", "gate_tlist"}:
+        _fail("_process_gate_pulse, scalar branch: assignments to pulse_mode, step_size, coeff, gate_tlist expected")
+    _expect(st["step_size"], "tlist", "scalar branch, step_size")
+    _expect(st["coeff"], "np.array([coeff])", "scalar branch, coeff")
+    _expect(st["gate_tlist"], "np.array([tlist])", "scalar branch, gate_tlist")
+    out = {"scalarMode": _mode(st["pulse_mode"], "scalar branch"), "branches": []}
+    while True:
+        if len(node.orelse) != 1:
+            _fail("_process_gate_pulse: elif/else chain not recognised")
+        nxt = node.orelse[0]
+        if isinstance(nxt, ast.Raise):
+            if not U(nxt).startswith("raise ValueError("):
+                _fail("_process_gate_pulse: final else must raise ValueError")
+            break
+        if not isinstance(nxt, ast.If):
+            _fail("_process_gate_pulse: elif expected, found " + U(nxt)[:60])
+        node = nxt
+        l, op, r = _cmp(node.test, "_process_gate_pulse branch test")
+        if op != "eq":
+            _fail("_process_gate_pulse branch test: == expected: " + U(node.test))
+        (na, ka), (nb, kb) = _len_side(l, "branch test"), _len_side(r, "branch test")
+        if {na, nb} != {"tlist", "coeff"}:
+            _fail("_process_gate_pulse branch test must compare len(tlist) with len(coeff): " + U(node.test))
+        off = ka - kb if na == "tlist" else kb - ka          # len(tlist) + off == len(coeff)
+        st = {U(x.targets[0]): x.value for x in node.body if isinstance(x, ast.Assign) and len(x.targets) == 1}
+        if len(st) != len(node.body) or set(st) != {"pulse_mode", "step_size", "coeff", "gate_tlist"}:
+            _fail("_process_gate_pulse, array branch: assignments to pulse_mode, step_size, coeff, gate_tlist expected")
+        ss = st["step_size"]
+        ok = isinstance(ss, ast.BinOp) and isinstance(ss.op, ast.Sub) and all(
+            isinstance(x, ast.Subscript) and U(x.value) == "tlist" and isinstance(x.slice, ast.Constant)
+            and isinstance(x.slice.value, int) and x.slice.value >= 0 for x in (ss.left, ss.right))
+        if not ok:
+            _fail("array branch, step_size: tlist[i] - tlist[j] expected: " + U(ss))
+        out["branches"].append({"off": off, "hi": ss.left.slice.value, "lo": ss.right.slice.value,
+                                "tSlice": _slice(st["gate_tlist"], "tlist", "gate_tlist"),
+                                "cSlice": _slice(st["coeff"], "coeff", "coeff"),
+                                "mode": _mode(st["pulse_mode"], "array branch")})
+    return out
+
+
+def _pieces(stmts, what):
+    """statements filling `idling_tlist` -> list of pieces"""
+    env, out = {}, []
+
+    def arr(node):
+        if isinstance(node, ast.Name) and node.id in env:
+            return env[node.id]
+        if isinstance(node, ast.Call) and U(node.func) == "np.linspace" and len(node.args) == 3 and not node.keywords:
+            n = _num(node.args[2])
+            if n.denominator != 1 or n < 0:
+                _fail(f"{what}: np.linspace count must be a non-negative integer: " + U(node))
+            return ("linspace", _lin(node.args[0]), _lin(node.args[1]), int(n))
+        if isinstance(node, ast.Call) and U(node.func) == "np.arange" and len(node.args) == 3 and not node.keywords:
+            return ("arange", _lin(node.args[0]), _lin(node.args[1]), _lin(node.args[2]))
+        if isinstance(node, ast.List):
+            return ("pts", [_lin(e) for e in node.elts])
+        _fail(f"{what}: np.linspace(a, b, n) / np.arange(a, stop, step) / [..] expected: " + U(node))
+
+    for x in stmts:
+        if isinstance(x, ast.Assign) and len(x.targets) == 1 and isinstance(x.targets[0], ast.Name):
+            env[x.targets[0].id] = arr(x.value)
+        elif isinstance(x, ast.Expr) and isinstance(x.value, ast.Call) and U(x.value.func) == "idling_tlist.extend" \
+                and len(x.value.args) == 1 and isinstance(x.value.args[0], ast.List):
+            out += [arr(e) for e in x.value.args[0].elts]
+        elif isinstance(x, ast.Expr) and isinstance(x.value, ast.Call) and U(x.value.func) == "idling_tlist.append" \
+                and len(x.value.args) == 1:
+            out.append(arr(x.value.args[0]))
+        else:
+            _fail(f"{what}: statement not recognised: " + U(x)[:80])
+    return out
+
+
+def read_idle(tree):
+    fn, body = _func(tree, "_process_idling_tlist")
+    if [a.arg for a in fn.args.args] != ["self", "pulse_mode", "start_time", "last_pulse_time", "step_size"]:
+        _fail("_process_idling_tlist: parameters changed")
+    if len(body) != 3 or not isinstance(body[1], ast.If):
+        _fail("_process_idling_tlist: `idling_tlist = []`, one if/elif, return expected")
+    _expect(body[0], "idling_tlist = []", "_process_idling_tlist")
+    _expect(body[2], "return np.concatenate(idling_tlist)", "_process_idling_tlist")
+    top = body[1]
+    _expect(top.test, "pulse_mode == 'continuous'", "_process_idling_tlist")
+    if len(top.body) != 1 or not isinstance(top.body[0], ast.If) or len(top.orelse) != 1 or not isinstance(top.orelse[0], ast.If):
+        _fail("_process_idling_tlist: continuous branch = one if/else, then `elif pulse_mode == 'discrete'`")
+    inner, disc = top.body[0], top.orelse[0]
+    _expect(disc.test, "pulse_mode == 'discrete'", "_process_idling_tlist")
+    if disc.orelse:
+        _fail("_process_idling_tlist: unexpected else after the discrete branch")
+    l, op, r = _cmp(inner.test, "_process_idling_tlist, idle test")
+    return {"condL": _lin(l), "condCmp": op, "condR": _lin(r),
+            "thenP": _pieces(inner.body, "continuous/long"), "elseP": _pieces(inner.orelse, "continuous/short"),
+            "disc": _pieces(disc.body, "discrete")}
+
+
+_IDLE_APPEND = ("compiled_tlist[pulse_ind].append(idling_tlist)", "compiled_coeffs[pulse_ind].append(np.zeros(len(idling_tlist)))")
+
+
+def read_cat(tree):
+    fn, body = _func(tree, "_concatenate_pulses")
+    cat = {}
+    i = 0
+
+    def nxt():
+        nonlocal i
+        if i >= len(body):
+            _fail("_concatenate_pulses: statement missing")
+        i += 1
+        return body[i - 1]
+
+    _expect(nxt(), "min_step_size = np.inf", "_concatenate_pulses")
+    x = nxt()
+    has_tt = isinstance(x, ast.Assign) and U(x.targets[0]) == "time_tol"
+    if has_tt:
+        v = x.value
+        if not (isinstance(v, ast.BinOp) and isinstance(v.op, ast.Mult)):
+            _fail("time_tol: `constant * max(...)` expected: " + U(v))
+        c, m = (v.left, v.right) if _is_num(v.left) else (v.right, v.left)
+        cat["gapTol"] = _num(c)
+        ok = isinstance(m, ast.Call) and U(m.func) == "max" and len(m.args) == 1 and isinstance(m.args[0], ast.ListComp) \
+            and [U(k.value) for k in m.keywords if k.arg == "default"] == ["0.0"] and len(m.keywords) == 1
+        if not ok:
+            _fail("time_tol: max([...], default=0.0) expected: " + U(m))
+        lc = m.args[0]
+        if [(U(g.target), U(g.iter), len(g.ifs)) for g in lc.generators] != [("insts", "pulse_instructions", 0), ("inst", "insts", 0)]:
+            _fail("time_tol: the maximum must run over all instructions of all channels: " + U(lc))
+        elt = U(lc.elt)
+        if elt == "abs(inst[0])":
+            cat["gapRef"] = "maxStart"
+        elif elt == "abs(inst[0]) + np.max(inst[1], initial=0.0)":
+            cat["gapRef"] = "maxEnd"
+        else:
+            _fail("time_tol: reference time not recognised: " + elt)
+        x = nxt()
+    _expect(x, "compiled_tlist = [[] for tmp in range(num_controls)]", "_concatenate_pulses")
+    _expect(nxt(), "compiled_coeffs = [[] for tmp in range(num_controls)]", "_concatenate_pulses")
+    loop = nxt()
+    if not (isinstance(loop, ast.For) and U(loop.target) == "pulse_ind" and U(loop.iter) == "range(num_controls)"
+            and not loop.orelse and len(loop.body) == 2):
+        _fail("_concatenate_pulses: channel loop not recognised")
+    _expect(loop.body[0], "last_pulse_time = 0.0", "channel loop")
+    inner = loop.body[1]
+    if not (isinstance(inner, ast.For) and U(inner.target) == "(start_time, tlist, coeff)"
+            and U(inner.iter) == "pulse_instructions[pulse_ind]" and not inner.orelse and len(inner.body) == 8):
+        _fail("_concatenate_pulses: instruction loop not recognised")
+    b = inner.body
+    _expect(b[0], "gate_tlist, coeffs, step_size, pulse_mode = self._process_gate_pulse(start_time, tlist, coeff)", "instruction loop")
+    _expect(b[1], "min_step_size = min(step_size, min_step_size)", "instruction loop")
+    # first pulse
+    f = b[2]
+    if not (isinstance(f, ast.If) and not f.orelse and len(f.body) == 2):
+        _fail("first-pulse branch not recognised")
+    _expect(f.body[0], "compiled_tlist[pulse_ind].append([0.0])", "first-pulse branch")
+    _expect(f.body[1], "if pulse_mode == 'continuous':\n    compiled_coeffs[pulse_ind].append([0.0])", "first-pulse branch")
+    if U(f.test) in ("not compiled_tlist[pulse_ind]", "len(compiled_tlist[pulse_ind]) == 0"):
+        cat.update(firstByTol=False, firstCmp="lt", firstTol=F(1, 10**6))
+    else:
+        l, op, r = _cmp(f.test, "first-pulse test")
+        _expect(l, ("abs(last_pulse_time)", "np.abs(last_pulse_time)"), "first-pulse test")
+        _n, c = _times_const(r, ("step_size",), "first-pulse test")
+        cat.update(firstByTol=True, firstCmp=op, firstTol=c)
+    # idle gap
+    g = b[3]
+    if not (isinstance(g, ast.If) and not g.orelse and len(g.body) == 3):
+        _fail("idle-gap branch not recognised")
+    _expect(g.body[0], "idling_tlist = self._process_idling_tlist(pulse_mode, start_time, last_pulse_time, step_size)", "idle-gap branch")
+    _expect(g.body[1], _IDLE_APPEND[0], "idle-gap branch")
+    _expect(g.body[2], _IDLE_APPEND[1], "idle-gap branch")
+    l, op, r = _cmp(g.test, "idle-gap test")
+    _expect(l, ("np.abs(start_time - last_pulse_time)", "abs(start_time - last_pulse_time)"), "idle-gap test")
+    cat["gapCmp"] = op
+    if has_tt:
+        _expect(r, "time_tol", "idle-gap test")
+    else:
+        _n, c = _times_const(r, ("step_size",), "idle-gap test")
+        cat.update(gapRef="step", gapTol=c)
+    _expect(b[4], "execution_time = gate_tlist + start_time", "instruction loop")
+    _expect(b[5], "last_pulse_time = execution_time[-1]", "instruction loop")
+    _expect(b[6], "compiled_tlist[pulse_ind].append(execution_time)", "instruction loop")
+    _expect(b[7], "compiled_coeffs[pulse_ind].append(coeffs)", "instruction loop")
+    # final time
+    x = nxt()
+    if U(x) == "final_time = np.max([tlist[-1][-1] for tlist in compiled_tlist])":
+        cat["emptyOk"] = False
+    else:
+        _expect(x, "end_times = [tlist[-1][-1] for tlist in compiled_tlist if tlist]", "final time")
+        _expect(nxt(), "final_time = np.max(end_times) if end_times else 0.0", "final time")
+        cat["emptyOk"] = True
+    pad = nxt()
+    if not (isinstance(pad, ast.For) and U(pad.target) == "pulse_ind" and U(pad.iter) == "range(num_controls)" and not pad.orelse):
+        _fail("padding loop not recognised")
+    pb = list(pad.body)
+    if pb and U(pb[0]) == "if not compiled_tlist[pulse_ind]:\n    continue":
+        pb = pb[1:]
+    elif cat["emptyOk"]:
+        _fail("padding loop: `if not compiled_tlist[pulse_ind]: continue` expected")
+    if len(pb) != 2:
+        _fail("padding loop not recognised")
+    _expect(pb[0], "last_pulse_time = compiled_tlist[pulse_ind][-1][-1]", "padding loop")
+    t = pb[1]
+    if not (isinstance(t, ast.If) and not t.orelse and len(t.body) == 3):
+        _fail("padding branch not recognised")
+    l, op, r = _cmp(t.test, "padding test")
+    _expect(l, ("np.abs(final_time - last_pulse_time)", "abs(final_time - last_pulse_time)"), "padding test")
+    n, c = _times_const(r, ("min_step_size", "step_size"), "padding test")
+    cat.update(padCmp=op, padTol=c, padTolStep="min" if n == "min_step_size" else "last")
+    call = t.body[0]
+    if U(call) == "idling_tlist = self._process_idling_tlist(pulse_mode, final_time, last_pulse_time, min_step_size)":
+        cat["padStep"] = "min"
+    elif U(call) == "idling_tlist = self._process_idling_tlist(pulse_mode, final_time, last_pulse_time, step_size)":
+        cat["padStep"] = "last"
+    else:
+        _fail("padding branch: call of _process_idling_tlist not recognised: " + U(call))
+    _expect(t.body[1], _IDLE_APPEND[0], "padding branch")
+    _expect(t.body[2], _IDLE_APPEND[1], "padding branch")
+    _expect(nxt(), "for i in range(num_controls):\n    if not compiled_coeffs[i]:\n        compiled_tlist[i] = None\n        "
+            "compiled_coeffs[i] = None\n    else:\n        compiled_tlist[i] = np.concatenate(compiled_tlist[i])\n        "
+            "compiled_coeffs[i] = np.concatenate(compiled_coeffs[i])", "final conversion")
+    _expect(nxt(), "return (compiled_tlist, compiled_coeffs)", "_concatenate_pulses")
+    if i != len(body):
+        _fail("_concatenate_pulses: unexpected trailing statements")
+    # compile: are instructions of zero duration dropped before scheduling?
+    cfn, _cb = _func(tree, "compile")
+    adds = [U(n.value) for n in ast.walk(cfn) if isinstance(n, ast.AugAssign) and U(n.target) == "instruction_list"]
+    if adds == ["instruction"]:
+        cat["dropZero"] = False
+    elif adds == ["[ins for ins in instruction if ins.duration != 0]"]:
+        cat["dropZero"] = True
+    else:
+        _fail("compile: how instructions are collected is not recognised: " + "; ".join(adds))
+    return cat
+
+
+def read_source():
+    path = os.path.join(paths.REPO, *SRC_FILE)
     try:
         tree = ast.parse(open(path).read())
     except Exception as e:
         raise TranslatorError(f"cannot parse {path}: {e}")
-    fn = None
-    for node in ast.walk(tree):
-        if isinstance(node, ast.FunctionDef) and node.name == "_concatenate_pulses":
-            fn = node
-    if fn is None:
-        raise TranslatorError("GateCompiler._concatenate_pulses not found")
-    first_v = None
-    for node in ast.walk(fn):
-        if isinstance(node, ast.If) and node.body:
-            first = ast.unparse(node.body[0])
-            if first.replace(" ", "") == "compiled_tlist[pulse_ind].append([0.0])":
-                test = ast.unparse(node.test)
-                if test == _FIRST_TOL:
-                    first_v = "tol"
-                elif test in _FIRST_STRUCT:
-                    first_v = "struct"
-                else:
-                    raise TranslatorError("first-pulse test of _concatenate_pulses not recognised: " + test)
-    if first_v is None:
-        raise TranslatorError("first-pulse branch of _concatenate_pulses not found")
-    # fixes/C12-2.patch: channels / gate lists without pulse are left empty
-    final = [ast.unparse(n.value) for n in ast.walk(fn)
-             if isinstance(n, ast.Assign) and ast.unparse(n.targets[0]) == "final_time"]
-    ends = [ast.unparse(n.value) for n in ast.walk(fn)
-            if isinstance(n, ast.Assign) and ast.unparse(n.targets[0]) == "end_times"]
-    if final == ["np.max([tlist[-1][-1] for tlist in compiled_tlist])"] and not ends:
-        v = first_v
-    elif final == ["np.max(end_times) if end_times else 0.0"] and ends == ["[tlist[-1][-1] for tlist in compiled_tlist if tlist]"]:
-        v = first_v + " skipzero=1"
-    else:
-        raise TranslatorError(f"_concatenate_pulses: final_time logic not recognised: final_time={final} end_times={ends}")
-    # fixes/C12-3.patch: idle-gap test against an absolute tolerance (1e-12 * largest start time)
-    gap_tests = [ast.unparse(n.test) for n in ast.walk(fn) if isinstance(n, ast.If)
-                 and ast.unparse(n.test).startswith("np.abs(start_time - last_pulse_time) >")]
-    tol_def = [ast.unparse(n.value) for n in ast.walk(fn)
-               if isinstance(n, ast.Assign) and ast.unparse(n.targets[0]) == "time_tol"]
-    if gap_tests == ["np.abs(start_time - last_pulse_time) > step_size * 1e-06"] and not tol_def:
-        pass
-    elif (gap_tests == ["np.abs(start_time - last_pulse_time) > time_tol"] and first_v == "struct" and tol_def ==
-          ["1e-12 * max([abs(inst[0]) for insts in pulse_instructions for inst in insts], default=0.0)"]):
-        v = v + " gaprel=RHO"
-    else:
-        raise TranslatorError(f"_concatenate_pulses: idle-gap test not recognised: {gap_tests} time_tol={tol_def}")
-    # compile: are instructions of zero duration dropped before scheduling?
-    cf = None
-    for node in ast.walk(tree):
-        if isinstance(node, ast.FunctionDef) and node.name == "compile":
-            cf = node
-    if cf is None:
-        raise TranslatorError("GateCompiler.compile not found")
-    adds = [ast.unparse(n.value) for n in ast.walk(cf)
-            if isinstance(n, ast.AugAssign) and ast.unparse(n.target) == "instruction_list"]
-    if adds == ["instruction"]:
-        return v
-    if adds == ["[ins for ins in instruction if ins.duration != 0]"]:
-        return v + " dropzero=1"
-    raise TranslatorError("compile: how instructions are collected is not recognised: " + "; ".join(adds))
+    return {"proc": read_proc(tree), "idle": read_idle(tree), "cat": read_cat(tree)}
+
+
+#: the description the theorems are about (used by the oracle-side bookkeeping when the source cannot be read)
+def standard_desc():
+    one, z = F(1), F(0)
+    return {"proc": {"scalarMode": "discrete", "branches": [
+                {"off": -1, "hi": 1, "lo": 0, "tSlice": (1, 0), "cSlice": (0, 0), "mode": "discrete"},
+                {"off": 0, "hi": 1, "lo": 0, "tSlice": (1, 0), "cSlice": (1, 0), "mode": "continuous"}]},
+            "idle": {"condL": (one, -one, z, z), "condCmp": "gt", "condR": (z, z, F(3), z),
+                     "thenP": [("linspace", (z, one, F(1, 5), z), (z, one, one, z), 10),
+                               ("linspace", (one, z, -one, z), (one, z, z, z), 10)],
+                     "elseP": [("arange", (z, one, one, z), (one, z, z, z), (z, z, one, z))],
+                     "disc": [("pts", [(one, z, z, z)])]},
+            "cat": {"firstByTol": False, "firstCmp": "lt", "firstTol": F(1, 10**6), "gapRef": "maxEnd", "gapCmp": "gt",
+                    "gapTol": F(1, 10**12), "emptyOk": True, "padCmp": "gt", "padTol": F(1, 10**6), "padTolStep": "min",
+                    "padStep": "min", "dropZero": True}}
+
+
+def _lr(x):
+    x = F(x)
+    if x.denominator == 1:
+        return str(x.numerator) if x >= 0 else f"({x.numerator})"
+    return f"{x.numerator}/{x.denominator}" if x > 0 else f"({x.numerator}/{x.denominator})"
+
+
+def _llin(l):
+    return "⟨" + ", ".join(_lr(x) for x in l) + "⟩"
+
+
+def _lpiece(p):
+    if p[0] == "linspace":
+        return f".linspace {_llin(p[1])} {_llin(p[2])} {p[3]}"
+    if p[0] == "arange":
+        return f".arange {_llin(p[1])} {_llin(p[2])} {_llin(p[3])}"
+    return ".pts [" + ", ".join(_llin(l) for l in p[1]) + "]"
+
+
+def _lbool(b):
+    return "true" if b else "false"
+
+
+def render_gen(d):
+    pr, idl, c = d["proc"], d["idle"], d["cat"]
+    br = ", ".join(f"⟨{_lr(b['off'])}, {b['hi']}, {b['lo']}, ⟨{b['tSlice'][0]}, {b['tSlice'][1]}⟩, "
+                   f"⟨{b['cSlice'][0]}, {b['cSlice'][1]}⟩, .{b['mode']}⟩" for b in pr["branches"])
+    pl = lambda ps: "[" + ", ".join(_lpiece(p) for p in ps) + "]"
+    return ("import QipVerif.Model.ConcatSrc\n"
+            "/-! REGENERATED by py/props/c12.py from src/qutip_qip/compiler/gatecompiler.py\n"
+            "(`_process_gate_pulse`, `_process_idling_tlist`, `_concatenate_pulses`, `compile`). Do not edit. -/\n"
+            "namespace QipVerif.Gen\nopen QipVerif.Concat\n\n"
+            "/-- what the working tree says -/\n"
+            "def concatSrc : Src :=\n"
+            "  { proc :=\n"
+            f"      {{ scalarMode := .{pr['scalarMode']},\n"
+            f"        branches := [{br}] }},\n"
+            "    idle :=\n"
+            f"      {{ condL := {_llin(idl['condL'])}, condCmp := .{idl['condCmp']}, condR := {_llin(idl['condR'])},\n"
+            f"        thenP := {pl(idl['thenP'])},\n"
+            f"        elseP := {pl(idl['elseP'])},\n"
+            f"        disc := {pl(idl['disc'])} }},\n"
+            "    cat :=\n"
+            f"      {{ firstByTol := {_lbool(c['firstByTol'])}, firstCmp := .{c['firstCmp']}, firstTol := {_lr(c['firstTol'])},\n"
+            f"        gapRef := .{c['gapRef']}, gapCmp := .{c['gapCmp']}, gapTol := {_lr(c['gapTol'])},\n"
+            f"        emptyOk := {_lbool(c['emptyOk'])},\n"
+            f"        padCmp := .{c['padCmp']}, padTol := {_lr(c['padTol'])}, padTolStep := .{c['padTolStep']}, padStep := .{c['padStep']},\n"
+            f"        dropZero := {_lbool(c['dropZero'])} }} }}\n\n"
+            "end QipVerif.Gen\n")
+
+
+def describe(d):
+    c = d["cat"]
+    first = f"abs(last) {c['firstCmp']} step*{float(c['firstTol'])}" if c["firstByTol"] else "emptiness"
+    return (f"first pulse by {first}; idle gap {c['gapCmp']} {float(c['gapTol'])}*{c['gapRef']}; emptyOk={c['emptyOk']}; "
+            f"padding {c['padCmp']} {c['padTolStep']}_step*{float(c['padTol'])}, idle step {c['padStep']}; dropZero={c['dropZero']}; "
+            f"idle test {d['idle']['condCmp']}; {len(d['proc']['branches'])} array branches")
 
 
 # ----------------------------------------------------------------------------------------------
@@ -352,7 +732,7 @@ def gen_case0(rng, wild):
     return {"nq": nq, "mode": rng.choice([None, "ASAP", "ALAP"]), "gates": gates}
 
 
-def case_instr_lines(case, variant, starts, perm, tau):
+def case_instr_lines(case, starts, perm, scale):
     labels = {}
     parts = []
     for g in case["gates"]:
@@ -368,7 +748,7 @@ def case_instr_lines(case, variant, starts, perm, tau):
             lid = labels.setdefault(lab, len(labels))
             ps.append(f"{lid}=" + (f"s:{fs(cf[1])}" if cf[0] == "s" else f"a:{fl(cf[1])}"))
         parts.append(t + "@" + "&".join(ps))
-    line = f"compile first={vstr(variant, tau)} tau={fs(tau)} "
+    line = f"compile scale={fs(scale)} "
     if case["mode"]:
         line += f"mode=sched starts={fl(F(x) for x in starts)} perm={','.join(map(str, perm))} "
     else:
@@ -419,151 +799,210 @@ def compare_channels(model, impl, exact=True, scale=1.0):
 CHECK = None
 
 # ----------------------------------------------------------------------------------------------
-# the property itself on the real code (independent of the Lean model)
-def windows_of(case, starts_sorted_instr):
-    """channel label -> list of (start, tl(list of Fractions, from 0), coeffs, kind) in execution order"""
-    chans = {}
-    for g, s in starts_sorted_instr:
-        if g["name"] in ("IDLE", "GLOBALPHASE"):
-            continue
-        tl = g["tl"]
-        for lab, cf in g["pulses"]:
-            if tl[0] == "s" and F(tl[1]) == 0 and "dropzero" in (CHECK._variant() if CHECK else ""):
-                continue                       # dropped by compile before scheduling
-            if tl[0] == "s":
-                w = (F(s), [F(0), F(tl[1])], [F(cf[1])], "discrete")
-            elif cf[0] == "s":
-                w = (F(s), [F(x) for x in tl[1]], [F(cf[1])], "bad")
-            else:
-                t = [F(x) for x in tl[1]]
-                c = [F(x) for x in cf[1]]
-                kind = "discrete" if len(c) == len(t) - 1 else ("continuous" if len(c) == len(t) else "bad")
-                w = (F(s), t, c, kind)
-            chans.setdefault(lab, []).append(w)
-    return chans
+# the property itself on the real code (independent of the Lean model and of the description of the source)
+#
+# Resolution class (recorded finding, not judged): time differences below RES = 1e-12 of the total time T of the schedule
+# are not resolved -- an idle gap of at most RES*T is merged with the following instruction, a start time that lies at
+# most RES*T before the previous end (rounding of the scheduler) is taken as that end; pulses with a step of at most
+# RES*T are outside.  Everything else is judged.
+def fadd(a, b):
+    """the float addition the code performs (`gate_tlist + start_time`), exact on the dyadic stream"""
+    return F(float(a) + float(b))
 
 
-def sep_all(chans, variant):
-    tmax = max([abs(w[0]) for ws in chans.values() for w in ws], default=F(0))
-    return all(sep_ok(ws, variant, tmax) for ws in chans.values())
-
-
-def sep_ok(ws, variant, tmax=F(0)):
-    """the explicit scale hypothesis of the theorems (Sep) for one channel"""
-    last = F(0)
-    for j, (s, t, c, kind) in enumerate(ws):
-        step = t[1] - t[0]
-        if "gaprel" in variant:
-            gap = s - last
-            if not (gap == 0 or gap > RHO * tmax):
-                return False
-            last = s + t[-1]
-            continue
-        if variant.startswith("tol") and j > 0 and not (abs(last) >= step * TAU):
-            return False
-        gap = s - last
-        if not (gap == 0 or gap > step * TAU):
-            return False
-        last = s + t[-1]
-    return True
-
-
-def resolution_ok(chans):
-    """float resolution: the final time is below 2^40 steps of the finest pulse (otherwise idle points of continuous
-    pulses, computed as last + step/5 ..., collapse in double precision: recorded finding)"""
-    ends = [ws[-1][0] + ws[-1][1][-1] for ws in chans.values() if ws]
-    steps = [w[1][1] - w[1][0] for ws in chans.values() for w in ws]
-    return not ends or max(ends) < min(steps) * 2**40
-
-
-def precondition(ws):
-    """sorted, non-overlapping, positive durations, well-formed waveforms, one kind per channel"""
-    last = F(0)
-    kinds = set()
-    for (s, t, c, kind) in ws:
-        if kind == "bad" or len(t) < 2 or t[0] != 0:
-            return False
-        if any(t[i + 1] <= t[i] for i in range(len(t) - 1)):
-            return False
-        if s < last:
-            return False
-        last = s + t[-1]
-        kinds.add(kind)
-    return len(kinds) == 1
-
-
-def check_channel(ws, grid, coeff):
-    """C12 for one channel, exact arithmetic on Fractions.  -> None or description of the violation."""
-    g = [F(float(x)) for x in grid]
-    c = [F(float(x)) for x in coeff]
-    kind = ws[0][3]
-    if not g or g[0] != 0:
-        return "grid does not start at 0"
-    for k in range(len(g) - 1):
-        if not g[k] < g[k + 1]:
-            return f"grid not strictly increasing at {k}: {float(g[k])!r}, {float(g[k + 1])!r}"
-    if kind == "discrete":
-        if len(c) != len(g) - 1:
-            return f"discrete channel: {len(c)} coefficients for {len(g)} grid points"
-        gs = set(g)
-        for (s, t, cf, _k) in ws:
-            for x in t:
-                if s + x not in gs:
-                    return f"slot boundary {float(s + x)!r} of an instruction is not a grid point"
-        for k in range(len(c)):
-            mid = (g[k] + g[k + 1]) / 2
-            exp = F(0)
-            for (s, t, cf, _k) in ws:
-                if s <= mid < s + t[-1]:
-                    i = max(i for i in range(len(t)) if s + t[i] <= mid)
-                    exp = cf[i]
-            if c[k] != exp:
-                return f"slot [{float(g[k])!r},{float(g[k + 1])!r}) has coefficient {float(c[k])!r}, the schedule says {float(exp)!r}"
-        return None
-    # continuous: samples
-    if len(c) != len(g):
-        return f"continuous channel: {len(c)} coefficients for {len(g)} grid points"
-    gs = {x: k for k, x in enumerate(g)}
-    for (s, t, cf, _k) in ws:
-        for i in range(1, len(t)):
-            if s + t[i] not in gs:
-                return f"sample point {float(s + t[i])!r} of an instruction is not a grid point"
-            if c[gs[s + t[i]]] != cf[i]:
-                return f"sample at {float(s + t[i])!r} is {float(c[gs[s + t[i]]])!r}, the instruction says {float(cf[i])!r}"
-    for k, x in enumerate(g):
-        inside = False
-        for (s, t, cf, _k) in ws:
-            if s < x <= s + t[-1]:
-                inside = True
-                if x - s not in t:
-                    return f"grid point {float(x)!r} inside a window is not one of the instruction's sample points"
-        if not inside and c[k] != 0:
-            return f"sample {float(c[k])!r} at {float(x)!r} outside every instruction window"
-    return None
+def window(s, tl, cf):
+    """one pulse of an instruction on a channel: start, relative grid, absolute points, coefficients, kind"""
+    s = F(s)
+    if tl[0] == "s":
+        t, c, kind = [F(0), F(tl[1])], [F(cf[1])], ("discrete" if cf[0] == "s" else "bad")
+    elif cf[0] == "s":
+        t, c, kind = [F(x) for x in tl[1]], [F(cf[1])], "bad"
+    else:
+        t = [F(x) for x in tl[1]]
+        c = [F(x) for x in cf[1]]
+        kind = "discrete" if len(c) == len(t) - 1 else ("continuous" if len(c) == len(t) else "bad")
+    return {"s": s, "t": t, "P": [s] + [fadd(s, x) for x in t[1:]], "c": c, "kind": kind}
 
 
 def _gate_duration(g):
     if g["name"] == "IDLE":
         return F(g["t"])
     tl = g["tl"]
-    return F(tl[1]) if tl[0] == "s" else F(tl[1][-1])
+    return F(tl[1]) if tl[0] == "s" else (F(tl[1][-1]) if tl[1] else F(0))
 
 
 def ordered_instr(case, starts, perm):
+    """[(gate, start)] in execution order.  With a scheduler the start times are those the real Scheduler returned; whether
+    compile handed it the zero-duration instructions is read off their number."""
     gs = [g for g in case["gates"] if g["name"] != "GLOBALPHASE"]
-    if CHECK is not None and "dropzero" in CHECK._variant():
-        gs = [g for g in gs if _gate_duration(g) != 0]
+    kept = [g for g in gs if _gate_duration(g) != 0]
     if case["mode"]:
-        return [(gs[i], starts[i]) for i in perm]
+        lst = gs if len(starts) == len(gs) else kept
+        if len(starts) != len(lst):
+            raise ValueError("number of scheduled start times does not match the instructions")
+        return [(lst[i], F(starts[i])) for i in perm]
     out, acc = [], F(0)
     for g in gs:
         out.append((g, acc))
-        if g["name"] == "IDLE":
-            acc += F(g["t"])
-        else:
-            tl = g["tl"]
-            acc += F(tl[1]) if tl[0] == "s" else F(tl[1][-1])
+        acc = fadd(acc, _gate_duration(g))
     return out
+
+
+def windows_of(ordered):
+    """channel label -> windows in execution order (an instruction of zero duration has no window)"""
+    chans = {}
+    for g, s in ordered:
+        if g["name"] in ("IDLE", "GLOBALPHASE") or _gate_duration(g) == 0:
+            continue
+        for lab, cf in g["pulses"]:
+            chans.setdefault(lab, []).append(window(s, g["tl"], cf))
+    return chans
+
+
+def total_time(chans):
+    return max([w["P"][-1] for ws in chans.values() for w in ws], default=F(0))
+
+
+def hypothesis(chans, full=False):
+    """is the schedule inside the class the property is judged on?  -> (ok, reason)"""
+    T = total_time(chans)
+    res = RES * T
+    lo, hi = res * (1 - F(1, 2**20)), res * (1 + F(1, 2**20))
+    for lab, ws in chans.items():
+        last = F(0)
+        for j, w in enumerate(ws):
+            t = w["t"]
+            if w["kind"] == "bad" or len(t) < 2 or t[0] != 0 or any(t[i + 1] <= t[i] for i in range(len(t) - 1)):
+                return False, "malformed waveform"
+            if not full and any(w["P"][i + 1] <= w["P"][i] for i in range(len(t) - 1)):
+                return False, "float resolution: the points of a pulse collapse at its start time"
+            if j and w["s"] < ws[j - 1]["s"]:
+                return False, "start times of a channel not sorted"
+            gap = w["s"] - last
+            if gap < -res:
+                return False, "instructions of a channel overlap"
+            if not last < w["P"][1]:
+                return False, "first point of an instruction not after the previous end"
+            if not full and (lo <= abs(gap) <= hi):
+                return False, "gap at the resolution limit"
+            last = w["P"][-1]
+    if full:
+        return True, ""
+    steps = [w["t"][1] - w["t"][0] for ws in chans.values() for w in ws]
+    if steps and not min(steps) > hi:
+        return False, "a pulse step at or below 1e-12 of the total time (float resolution, recorded finding class)"
+    return True, ""
+
+
+def check_channel(ws, grid, coeff, res):
+    """C12 for one channel, exact arithmetic on Fractions.  -> None or description of the violation."""
+    g = [F(float(x)) for x in grid]
+    c = [F(float(x)) for x in coeff]
+    k0 = ws[0]["kind"]
+    if not g or g[0] != 0:
+        return "grid does not start at 0"
+    for k in range(len(g) - 1):
+        if not g[k] < g[k + 1]:
+            return f"grid not strictly increasing at {k}: {float(g[k])!r}, {float(g[k + 1])!r}"
+    if k0 == "discrete" and len(c) != len(g) - 1:
+        return f"channel starting with a discrete pulse: {len(c)} coefficients for {len(g)} grid points"
+    if k0 == "continuous" and len(c) != len(g):
+        return f"channel starting with a continuous pulse: {len(c)} coefficients for {len(g)} grid points"
+    pairs = dict(zip(g[1:], c)) if k0 == "discrete" else dict(zip(g, c))
+    # every point of every instruction is there, with its coefficient
+    pts = set()
+    for w in ws:
+        P, cf = w["P"], w["c"]
+        own = [(P[i + 1], cf[i]) for i in range(len(cf))] if w["kind"] == "discrete" else [(P[i], cf[i]) for i in range(1, len(cf))]
+        for x, v in own:
+            pts.add(x)
+            if x not in pairs:
+                return f"point {float(x)!r} of an instruction is not a grid point"
+            if pairs[x] != v:
+                return f"coefficient at {float(x)!r} is {float(pairs[x])!r}, the instruction says {float(v)!r}"
+    # every grid point is explained: a point of an instruction, or outside every window with coefficient 0
+    for x, v in pairs.items():
+        if x in pts:
+            continue
+        if any(w["P"][0] < x <= w["P"][-1] for w in ws):
+            return f"grid point {float(x)!r} inside an instruction window is not one of the instruction's points"
+        if v != 0:
+            return f"coefficient {float(v)!r} at {float(x)!r} outside every instruction window"
+    # a resolved idle gap before a discrete pulse ends at the pulse's start
+    gs = set(g)
+    last = F(0)
+    for w in ws:
+        if w["kind"] == "discrete" and w["s"] - last > res and w["s"] not in gs:
+            return f"idle gap before the pulse starting at {float(w['s'])!r}: the start is not a grid point"
+        last = w["P"][-1]
+    # a channel of discrete pulses is a step function: its value on every slot is the scheduled one
+    if all(w["kind"] == "discrete" for w in ws):
+        for k in range(len(c)):
+            mid = (g[k] + g[k + 1]) / 2
+            exp = F(0)
+            for w in ws:
+                P = w["P"]
+                if P[0] <= mid < P[-1]:
+                    exp = w["c"][max(i for i in range(len(P)) if P[i] <= mid)]
+            if c[k] != exp:
+                return f"slot [{float(g[k])!r},{float(g[k + 1])!r}) has coefficient {float(c[k])!r}, the schedule says {float(exp)!r}"
+    return None
+
+
+def judge(chans, got, full=False):
+    """chans: label -> windows, got: label -> (grid, coeffs) or (None, None).  -> (fails, detail)"""
+    empty = sorted(lab for lab, ws in chans.items() if not ws)
+    chans = {lab: ws for lab, ws in chans.items() if ws}
+    ok, why = hypothesis(chans, full)
+    if not ok:
+        return False, "not judged: " + why
+    res = RES * total_time(chans)
+    for lab, ws in chans.items():
+        if lab not in got or got[lab][0] is None:
+            return True, f"channel {lab} is used by the schedule but not compiled"
+        d = check_channel(ws, got[lab][0], got[lab][1], res)
+        if d:
+            return True, f"channel {lab}: {d}"
+    for lab in got:
+        if lab not in chans and got[lab][0] is not None:
+            return True, f"channel {lab} carries no pulse but is compiled to {list(got[lab][0])[:6]}"
+    return False, "every channel is the scheduled waveform"
+
+
+def gen_float_case(rng):
+    """synthetic compile with non-dyadic durations: the scheduler's sums round"""
+    nq = rng.randint(1, 3)
+    targeted = rng.random() < 0.4          # short pulses, then one long pulse on the same channel(s)
+    ng = rng.randint(2, 6)
+    gates = []
+    kind0 = rng.choice(["scalar", "scalar", "discrete", "continuous"])
+    for j in range(ng):
+        long_one = targeted and j == ng - 1
+        e = rng.uniform(2.5, 4.0) if long_one else (rng.uniform(-3.5, -1.5) if targeted else rng.uniform(-3.5, 3.5))
+        d = rng.uniform(1.0, 10.0) * 10.0 ** e
+        if nq >= 2 and rng.random() < 0.3:
+            a_, b_ = rng.sample(range(nq), 2)
+            g = {"name": "CNOT", "targets": [b_], "controls": [a_]}
+            labs = [f"g{min(a_, b_)}"] + ([f"x{b_}"] if rng.random() < 0.4 else [])
+        else:
+            q = 0 if targeted else rng.randrange(nq)
+            g = {"name": rng.choice(["RX", "RY", "RZ"]), "targets": [q], "controls": None}
+            labs = [f"x{q}"] + ([f"y{q}"] if rng.random() < 0.2 else [])
+        kind = kind0 if rng.random() < 0.8 else rng.choice(["scalar", "discrete", "continuous"])
+        if kind == "scalar":
+            tl, mk = ["s", F(d)], lambda: ["s", F(rng.randint(-16, 16), 8)]
+        else:
+            n = rng.randint(2, 5)
+            tl = ["a", [F(float(x)) for x in np.linspace(0.0, d, n + 1)]]
+            m = n if kind == "discrete" else n + 1
+            mk = lambda: ["a", [F(0) if (kind == "continuous" and i == 0) else F(rng.randint(-16, 16), 8) for i in range(m)]]
+        g["tl"] = [tl[0], fs(tl[1]) if tl[0] == "s" else [fs(x) for x in tl[1]]]
+        g["pulses"] = []
+        for l in labs:
+            c = mk()
+            g["pulses"].append([l, [c[0], fs(c[1]) if c[0] == "s" else [fs(x) for x in c[1]]]])
+        gates.append(g)
+    return {"nq": nq, "mode": rng.choice(["ASAP", "ALAP", "ALAP", None]), "gates": gates}
 
 
 # ----------------------------------------------------------------------------------------------
@@ -593,35 +1032,6 @@ def shipped_case(rng):
             gates.append([nm, [q, q + 1], None, rng.choice([0.5, 1.0, 1.5])])
     return {"compiler": which, "n": n, "shape": shape, "num_samples": ns, "gates": gates,
             "mode": rng.choice([None, "ASAP", "ALAP"])}
-
-
-def shipped_excluded(case):
-    """classes the theorems exclude explicitly (WaveOK): zero-duration instructions, and the cavity-QED swap
-    compilers with a sampled shape (array tlist next to scalar coefficients -> Wave.mixed -> TypeError)"""
-    if any(g[0] in ("RX", "RZ", "RY") and g[3] == 0 for g in case["gates"]) and "dropzero" not in CHECK._variant():
-        return True
-    return case["compiler"] == "cavityqed" and case["shape"] != "rectangular" and \
-        any(g[0] in ("ISWAP", "SQRTISWAP") for g in case["gates"]) and _cavity_swap_raises()
-
-
-_CAVITY = {}
-
-
-def _cavity_swap_raises():
-    """behavioural probe (once per run): does the cavity-QED swap compiler still emit an array tlist next to scalar
-    coefficients for a sampled shape (fixes/C12-4.patch makes it always rectangular)?"""
-    if "r" not in _CAVITY:
-        case = {"compiler": "cavityqed", "n": 2, "shape": "hann", "num_samples": 5,
-                "gates": [["ISWAP", [0, 1], None, None]], "mode": None}
-        try:
-            comp, gates = build_shipped(case)
-            comp.compile(gates)
-            _CAVITY["r"] = False
-        except TypeError:
-            _CAVITY["r"] = True
-        except Exception:
-            _CAVITY["r"] = True
-    return _CAVITY["r"]
 
 
 def build_shipped(case):
@@ -673,11 +1083,22 @@ def shipped_instructions(case):
 
 
 # ----------------------------------------------------------------------------------------------
-KNOWN_WITNESSES = {
-    "scale": {"kind": "synthetic", "full": True, "case": {"nq": 1, "mode": None, "gates": [
-        {"name": "RX", "targets": [0], "controls": None, "tl": ["s", "1/1073741824"], "pulses": [["x0", ["s", "1/2"]]]},
-        {"name": "RX", "targets": [0], "controls": None, "tl": ["s", "8192"], "pulses": [["x0", ["s", "1/2"]]]}]}},
-}
+def direct_input(chans):
+    """[[(start, tl, cf)]] -> JSON-able input of a direct _concatenate_pulses call"""
+    return {"direct": [[[fs(s), [tl[0], fs(tl[1]) if tl[0] == "s" else [fs(x) for x in tl[1]]],
+                         [cf[0], fs(cf[1]) if cf[0] == "s" else [fs(x) for x in cf[1]]]] for s, tl, cf in ws] for ws in chans]}
+
+
+def limit_witnesses():
+    """gaps around 1e-12 of the total time on one channel and next to a longer channel (exact dyadic inputs)"""
+    half, q = F(1, 2), F(3, 4)
+    for L in (F(511), F(1023), F(2047), F(30000)):
+        for g in (F(1, 2**28), F(1, 2**27), F(1, 2**25), F(1, 2**20)):
+            yield {"kind": "direct", "input": direct_input([[(F(0), ["s", F(1)], ["s", half]), (1 + g, ["s", L], ["s", q])]])}
+            yield {"kind": "direct", "input": direct_input([[(F(0), ["s", F(1)], ["s", half]), (1 + g, ["s", F(2)], ["s", q])],
+                                                             [(F(0), ["s", L], ["s", q])]])}
+    yield {"kind": "direct", "input": direct_input([[(F(0), ["s", F(1)], ["s", half])]])}
+    yield {"kind": "direct", "input": direct_input([[(F(0), ["a", [F(0), F(1), F(2)]], ["a", [F(0), q, F(0)]])]])}
 
 
 class C12(PropertyCheck):
@@ -685,86 +1106,134 @@ class C12(PropertyCheck):
     lean_modules = ["QipVerif.Props.C12"]
     drivers = ["drv_concat"]
     theorems = [
+        # the code as read from the source, every schedule
+        "QipVerif.C12.source_shape",
+        "QipVerif.C12.source_constants",
+        "QipVerif.C12.source_is_model",
+        "QipVerif.C12.exact_schedule_is_rounded",
+        "QipVerif.C12.repaired_all_schedules",
+        "QipVerif.C12.compiled_source_all_schedules",
+        "QipVerif.C12.closed_channel_every_schedule",
+        "QipVerif.C12.discrete_channel_outside_small_gaps",
+        "QipVerif.C12.no_small_gap_when_separated",
+        "QipVerif.C12.compile_source_channels",
+        "QipVerif.C12.tolerance_counterexample",
+        "QipVerif.C12.maxstart_rounding_counterexample",
+        # repaired gap test, gaps 0 or above the tolerance
+        "QipVerif.C12.gap_repaired_concatenate",
+        "QipVerif.C12.closed_channel_is_schedule",
+        "QipVerif.C12.repaired_concatenate_agrees",
+        "QipVerif.C12.schedule_unscheduled",
+        "QipVerif.C12.schedule_scheduled",
+        # the code before the repairs (scale hypothesis Sep) and its counter-examples
         "QipVerif.C12.concatenate_channels",
         "QipVerif.C12.grid_starts_at_zero_and_increases",
         "QipVerif.C12.coefficient_length_fits",
         "QipVerif.C12.discrete_channel_is_schedule",
         "QipVerif.C12.continuous_channel_is_schedule",
         "QipVerif.C12.every_channel_points_are_schedule",
-        "QipVerif.C12.repaired_concatenate_agrees",
-        "QipVerif.C12.schedule_unscheduled",
-        "QipVerif.C12.schedule_scheduled",
         "QipVerif.C12.compile_channels",
-        "QipVerif.C12.gap_repaired_concatenate",
-        "QipVerif.C12.closed_channel_is_schedule",
         "QipVerif.C12.idle_only_counterexample",
         "QipVerif.C12.scale_counterexample",
         "QipVerif.C12.gap_counterexample",
     ]
-    technique = "Lean 4 proof (refinement of the channel loop to a tolerance-free list function, induction over the instruction list, exact rationals) + model/implementation correspondence"
-    level_text = ("Lean 4 theorems over exact rationals, for every tolerance tau > 0, both first-pulse tests (shipped / repaired), every "
-                  "number of channels and instructions, every padding mode: under the explicit hypotheses Chain (instructions of a "
-                  "channel sorted by start, non-overlapping, well-formed waves with positive durations) and Sep (scale hypothesis: "
-                  "every idle gap is 0 or > step*tau; shipped test only: no later instruction is processed while less than step*tau "
-                  "is covered) _concatenate_pulses succeeds and equals compiledChannel per channel; every channel's grid starts at 0 "
-                  "and increases strictly (scalar, discrete and continuous pulses, mixed too); the coefficient length fits the grid "
-                  "for the channel's kind; for channels of scalar/discrete pulses the step function of the compiled arrays equals the "
-                  "scheduled function at every time t (instruction waveform inside its window, 0 elsewhere); for channels of continuous "
-                  "pulses every (grid point, coefficient) pair is explained by the schedule (inside a window (s, s+dur] it is that "
-                  "instruction's sample, elsewhere 0) and every kept sample of every instruction is present.  With the repaired idle-gap test (fixes/C12-3.patch) the hypothesis Sep is "
-                  "replaced by 'every gap is 0 or above 1e-12 of the largest start time' (gap_repaired_concatenate) and the closed "
-                  "form meets the statement from Chain alone (closed_channel_is_schedule); _schedule and the grouping loop of compile "
-                  "are proved to keep every (instruction, start) pair and to put exactly the pulses labelled l on channel l.  Without Sep the "
-                  "statement is refuted on the model by decide (scale_counterexample: durations [1e-9, 1e4] give grid "
-                  "[0,1e-9,0,1e4+1e-9]; gap_counterexample) and on the code by replay.  The model is tied to GateCompiler.compile / "
-                  "_concatenate_pulses by an exact correspondence on dyadic inputs spanning 2^-30..2^20 and to the spin-chain, "
-                  "cavity-QED and SC-qubit compilers to 1e-9.")
-    level_note = ("Proof under Sep; outside Sep the property is false (findings).  Continuous pulses are judged at their sample points "
-                  "(the cubic spline through them is runtime numerics); the code drops each continuous pulse's first sample (documented "
-                  "convention: it is 0).  Channels mixing discrete and continuous instructions are covered by the grid/length theorems only.  "
-                  "The scheduler (start times) is C11's model: the start times the real Scheduler returns and the permutation "
-                  "np.argsort returns are inputs of this model.  Trusted: Lean kernel (propext, Classical.choice, Quot.sound), "
-                  "np.linspace/np.arange/np.argsort/np.concatenate as modelled, the harness py/props/c12.py.")
+    technique = ("Lean 4 proof (the channel loop refines a closed-form list function, induction over the instruction list, exact "
+                 "rationals) about a model whose constants, comparison operators, operands, end points and slices are regenerated "
+                 "from the source with ast + exact model/implementation correspondence + the property evaluated on the real code")
+    level_text = (
+        "Headline (the code as it is in the tree; Gen/ConcatSrc.lean is the ast-read description of _process_gate_pulse, "
+        "_process_idling_tlist, _concatenate_pulses, compile; source_shape / source_constants / source_is_model are decided on it, "
+        "so an edited constant or operator changes the Lean definition and breaks these theorems).  For EVERY list of channels, "
+        "every number of instructions, any mix of scalar / discrete / continuous pulses, idle gaps of ANY size and durations of ANY "
+        "relative magnitude, under the only hypothesis ChainR thr 0 (waves well formed with positive duration; start times of a "
+        "channel sorted -- proved for _schedule; every start at most thr = time_tol = 1e-12*(largest end time) before the end of "
+        "the previous instruction, i.e. non-overlapping up to the scheduler's rounding, thr = 0 allowed; first point of every "
+        "instruction after that end): compiled_source_all_schedules -- _concatenate_pulses succeeds and every channel is the closed "
+        "form closedChannelT (first-pulse chunk, per instruction an idle stretch exactly when start - previous end > time_tol, the "
+        "instruction's points start + tlist[1:], final padding to the common end time with the global min_step_size and the padding "
+        "mode of the last pulse processed; padding test > min_step_size*1e-6); closed_channel_every_schedule -- that closed form has "
+        "a grid starting at 0 and strictly increasing, a coefficient array fitting the grid for the kind of the channel's first pulse, "
+        "every (grid point, coefficient) pair is explained by the schedule (inside a window (s, s+dur] it is a point of that "
+        "instruction with its coefficient, outside all windows the coefficient is 0) and every point of every instruction is present; "
+        "discrete_channel_outside_small_gaps -- for channels of scalar/discrete pulses on an exactly non-overlapping schedule the "
+        "step function of the compiled arrays equals the scheduled function (waveform inside each window, 0 elsewhere) at every time "
+        "t outside the idle gaps of length <= time_tol; no_small_gap_when_separated -- if every gap is 0 or > time_tol there is no "
+        "exception and the statement holds at every t (closed_channel_is_schedule).  The exception is real and minimal: "
+        "tolerance_counterexample (gap 2^-40 after [0,1): the next coefficient is applied from t = 1 on) -- the tolerance is the "
+        "resolution of the schedule (class of the recorded float-resolution finding).  maxstart_rounding_counterexample: with "
+        "time_tol relative to the largest START time (code before fixes/C12-5.patch) a start returned as 1 - 1e-10 before a pulse of "
+        "length 1e4 makes the grid go backwards; relative to the largest END time the schedule is a rounded chain.  "
+        "compile_source_channels / schedule_unscheduled / schedule_scheduled: compile drops zero-duration instructions, keeps every "
+        "(instruction, start) pair, sorts the starts and puts exactly the pulses labelled l on channel l.  "
+        "Older code (kept as theorems about the model variants byTol / Sep): concatenate_channels ... every_channel_points_are_schedule "
+        "under the scale hypothesis Sep, refuted without it by scale_counterexample, gap_counterexample, idle_only_counterexample.  "
+        "The model the driver runs (concatenateS Gen.concatSrc) is tied to GateCompiler.compile / _concatenate_pulses / "
+        "_process_gate_pulse / _process_idling_tlist by an exact correspondence on dyadic inputs spanning 2^-30..2^20, including "
+        "families at the tolerance limits, and to the spin-chain, cavity-QED and SC-qubit compilers to 1e-9.")
+    level_note = (
+        "Proved for every schedule under ChainR alone; the only exception set is explicit (idle gaps of length in (0, time_tol], "
+        "time_tol = 1e-12 of the total time): there the property is false (tolerance_counterexample) -- resolution limit, recorded "
+        "finding class.  The discrete step-function theorem is for exactly non-overlapping schedules; for start times carrying "
+        "rounding the structural and point-level clauses are proved (windows then overlap by the rounding and a function-level "
+        "specification is not defined).  Continuous pulses are judged at their sample points (the cubic spline through them is "
+        "runtime numerics); the code drops each continuous pulse's first sample (documented convention: it is 0).  The scheduler "
+        "(start times) is C11's model: the start times the real Scheduler returns and the permutation np.argsort returns are inputs.  "
+        "Float arithmetic: the model is exact; the code's float sums are exact on the dyadic stream, the products step*1e-6 / "
+        "1e-12*T are probed with tolerances scaled by 1+-2^-20 (differing cases skipped and counted).")
     trusted_base = [
         "Lean 4.33 kernel; axioms propext, Classical.choice, Quot.sound",
-        "np.linspace(a,b,10) = a + i(b-a)/9, np.arange(a,stop,step) = a + i*step for i < ceil((stop-a)/step), np.argsort returns a "
-        "sorting permutation (taken from the run), np.concatenate (validated by the correspondence)",
-        "float arithmetic of the code is exact on the dyadic stream (multiples of 2^-30 below 2^23); step*1e-6 vs the rational tau: "
-        "cases whose outcome changes for tau*(1+-2^-20) are skipped",
+        "py/props/c12.py:read_source (ast translator: every statement of the three functions is either turned into a field of "
+        "Gen/ConcatSrc.lean or must equal the expected statement; TranslatorError otherwise) -- validated on every run by the "
+        "exact correspondence of the regenerated model with the code",
+        "np.linspace(a,b,n) = a + i(b-a)/(n-1), np.arange(a,stop,step) = a + i*step for i < ceil((stop-a)/step), np.max(x, initial=0), "
+        "np.argsort returns a sorting permutation (taken from the run), np.concatenate (validated by the correspondence)",
+        "float arithmetic of the code is exact on the dyadic stream (multiples of 2^-30 below 2^23); tolerance products vs the "
+        "rational constants: cases whose outcome changes when the constants are scaled by 1+-2^-20 are skipped",
         "Scheduler.schedule (C11) supplies the start times",
-        "py/props/c12.py (harness, oracle on exact Fractions)",
+        "py/props/c12.py (harness; oracle on exact Fractions, independent of the model and of the regenerated description)",
     ]
-    assumptions = ["float resolution: the final time is below 2^40 steps of the finest pulse (beyond that, points computed as "
-                   "last + step/5 collapse in double precision; recorded finding); the theorems themselves are exact",
-                   "instructions of one channel do not overlap (C11's no-overlap clause is refuted separately; such schedules are outside Chain)",
-                   "scale hypothesis Sep (explicit in every theorem)"]
+    assumptions = [
+        "resolution class (not judged by the oracle, excluded explicitly by the theorems' exception set SmallGap / hypothesis ChainR): "
+        "idle gaps and pulse steps of at most 1e-12 of the total time of the schedule; beyond that double precision collapses "
+        "(recorded finding: step 2^-30 at t = 2^21)",
+        "instructions of one channel do not overlap by more than the scheduler's rounding (C11's no-overlap clause is decided "
+        "separately; overlapping schedules are outside ChainR)",
+        "continuous pulses: sample level (no statement about the interpolation between samples)",
+    ]
     rule = ("case = (gate list with one synthetic instruction per gate: scalar / discrete / continuous waveform, dyadic times "
-            "m*2^e, e in [-30,17]; schedule mode None/ASAP/ALAP) compiled by GateCompiler.compile and by the model fed with the "
-            "start times the real Scheduler returned; non-trivial = at least one channel with two instructions or an idle gap; "
-            "direct _concatenate_pulses calls, malformed inputs and shipped compilers are counted with their own tags")
+            "m*2^e, e in [-30,17]; schedule mode None/ASAP/ALAP) compiled by GateCompiler.compile and by the regenerated model fed "
+            "with the start times the real Scheduler returned; non-trivial = at least one channel with two instructions or an idle gap; "
+            "direct _concatenate_pulses calls (also at the tolerance limits), malformed inputs, unit calls and shipped compilers are "
+            "counted with their own tags")
 
     def __init__(self):
-        self.variant = None
+        self.desc = None
 
     def regenerate(self, ctx):
-        self.variant = detect_variant()
-        ctx.log(f"first-pulse test of _concatenate_pulses in {paths.REPO}: {self.variant}")
+        self.desc = None
+        self.desc = read_source()
+        ctx.log(f"source of {paths.REPO}: {describe(self.desc)}")
+        gen = os.path.join(paths.LEAN, "QipVerif", "Gen", "ConcatSrc.lean")
+        text = render_gen(self.desc)
+        if not os.path.exists(gen) or open(gen).read() != text:
+            with open(gen, "w") as f:
+                f.write(text)
+            return [gen]
         return []
 
-    def _variant(self):
-        if self.variant is None:
+    def _desc(self):
+        if self.desc is None:
             try:
-                self.variant = detect_variant()
+                self.desc = read_source()
             except TranslatorError:
-                self.variant = "tol"
-        return self.variant
+                self.desc = standard_desc()
+        return self.desc
 
     # -----------------------------------------------------------------------------------------
     def _model_compile(self, ctx, case, starts, perm):
-        v = self._variant()
         lines, id2lab = [], None
-        for tau in (TAU, TAU * (1 + F(1, 2**20)), TAU * (1 - F(1, 2**20))):
-            l, id2lab = case_instr_lines(case, v, starts, perm, tau)
+        for k in PROBE:
+            l, id2lab = case_instr_lines(case, starts, perm, k)
             lines.append(l)
         outs = ctx.driver("drv_concat").run(lines)
         tight = not (outs[0] == outs[1] == outs[2])
@@ -772,8 +1241,8 @@ class C12(PropertyCheck):
 
     def _compare_synth(self, ctx, res, case, tags):
         st, payload, starts, perm = run_compile_impl(case)
-        n_instr = sum(1 for g in case["gates"] if g["name"] != "GLOBALPHASE"
-                      and not ("dropzero" in self._variant() and _gate_duration(g) == 0))
+        dz = self._desc()["cat"]["dropZero"]
+        n_instr = sum(1 for g in case["gates"] if g["name"] != "GLOBALPHASE" and not (dz and _gate_duration(g) == 0))
         if n_instr == 0:
             res.case(case, nontrivial=False, tags=list(tags) + ["no-instruction"])
             if st != "none":
@@ -784,10 +1253,15 @@ class C12(PropertyCheck):
             res.disagree(case, "-", [st, str(payload)[:200]], "the scheduler raised on a valid gate list", {"kind": "synthetic", "case": case})
             return
         (mst, mpayload), tight = self._model_compile(ctx, case, starts, perm)
-        chans = windows_of(case, ordered_instr(case, starts, perm)) if (starts is not None or not case["mode"]) else {}
-        nontriv = any(len(ws) >= 2 or (ws and ws[0][0] > 0) for ws in chans.values())
-        kinds = sorted({w[3] for ws in chans.values() for w in ws})
+        try:
+            chans = windows_of(ordered_instr(case, starts, perm))
+        except Exception:
+            chans = {}
+        nontriv = any(len(ws) >= 2 or (ws and ws[0]["s"] > 0) for ws in chans.values())
+        kinds = sorted({w["kind"] for ws in chans.values() for w in ws})
         tg = list(tags) + [f"mode={case['mode']}", f"result={mst}"] + [f"kind={k}" for k in kinds]
+        if any(len({w["kind"] for w in ws}) > 1 for ws in chans.values()):
+            tg.append("mixed-channel")
         if tight:
             res.case(case, nontrivial=False, tags=tg + ["tight-skipped"])
             return
@@ -806,8 +1280,6 @@ class C12(PropertyCheck):
     def _direct(self, ctx, res, n, malformed):
         """_concatenate_pulses called directly with hand-made per-channel instruction lists"""
         rng = ctx.rng
-        GateCompiler = _impl()[1]
-        v = self._variant()
         for _ in range(n):
             nch = rng.randint(0 if malformed else 1, 3)
             chans = []
@@ -838,19 +1310,43 @@ class C12(PropertyCheck):
                     ws.append((s, tl, cf))
                     t = s + (F(tl[1]) if tl[0] == "s" else (F(tl[1][-1]) if tl[1] else F(0)))
                 chans.append(ws)
-            inp = {"direct": [[[fs(s), [tl[0], fs(tl[1]) if tl[0] == "s" else [fs(x) for x in tl[1]]],
-                               [cf[0], fs(cf[1]) if cf[0] == "s" else [fs(x) for x in cf[1]]]] for s, tl, cf in ws] for ws in chans]}
-            self._compare_direct(ctx, res, inp, ["direct-malformed" if malformed else "direct"])
+            self._compare_direct(ctx, res, direct_input(chans), ["direct-malformed" if malformed else "direct"])
 
-    def _direct_lines(self, inp, tau):
-        v = self._variant()
+    def _limits(self, ctx, res):
+        """direct calls at the limits of the two tolerances: idle gaps of 2^-31..2^-27 of the total time (1e-12 = 2^-39.86 lies
+        between 2^-30/2^10 and 2^-29/2^10), on the long channel and on a short channel next to a long one; channel ends that
+        differ from the final time by 2^-21..2^-18 of the smallest step (1e-6 = 2^-19.93), discrete and continuous padding"""
+        half, q = F(1, 2), F(3, 4)
+        for L in (F(511), F(1023), F(2047), F(1000), F(300)):
+            for g in (F(1, 2**30), F(1, 2**29), F(1, 2**28), F(3, 2**30)):
+                for kind in ("s", "d", "c"):
+                    if kind == "s":
+                        long_ = (["s", L], ["s", q])
+                    elif kind == "d":
+                        long_ = (["a", [F(0), L / 2, L]], ["a", [q, -q]])
+                    else:
+                        long_ = (["a", [F(0), L / 2, L]], ["a", [F(0), q, F(0)]])
+                    one = [(F(0), ["s", F(1)], ["s", half]), (1 + g, long_[0], long_[1])]
+                    self._compare_direct(ctx, res, direct_input([one]), ["direct-limit", "limit=gap"])
+                    two = [[(F(0), ["s", F(1)], ["s", half]), (1 + g, ["s", F(2)], ["s", q])], [(F(0), long_[0], long_[1])]]
+                    self._compare_direct(ctx, res, direct_input(two), ["direct-limit", "limit=gap-other-channel"])
+        for ms in (F(1, 2**8), F(1, 2**5)):
+            for d in (ms / 2**21, ms / 2**20, ms / 2**19, ms / 2**18, ms * 2, ms * 5):
+                for lastkind in ("s", "c"):
+                    a_ = [(F(0), ["s", F(4)], ["s", half])]
+                    b_ = [(F(0), ["s", ms], ["s", q]), (ms, ["s", 4 + d - ms], ["s", half])]
+                    c_ = [(F(0), ["s", F(1)], ["s", q])] if lastkind == "s" else \
+                         [(F(0), ["a", [F(0), F(1, 2), F(1)]], ["a", [F(0), q, F(0)]])]
+                    self._compare_direct(ctx, res, direct_input([a_, b_, c_]), ["direct-limit", "limit=padding"])
+
+    def _direct_lines(self, inp, scale):
         chs = []
         for ws in inp["direct"]:
             if not ws:
                 chs.append("-")
             else:
                 chs.append(";".join(f"{fs(s)}@{wave_str(tl, cf)}" for s, tl, cf in ws))
-        line = f"concat first={vstr(v, tau)} tau={fs(tau)}"
+        line = f"concat scale={fs(scale)}"
         if chs:
             line += " chans=" + "!".join(chs)
         return line
@@ -866,7 +1362,7 @@ class C12(PropertyCheck):
                       (i, [float(x) for x in tl[i]], [float(x) for x in np.asarray(cf[i]).ravel()]) for i in range(len(pi))]
 
     def _compare_direct(self, ctx, res, inp, tags):
-        lines = [self._direct_lines(inp, tau) for tau in (TAU, TAU * (1 + F(1, 2**20)), TAU * (1 - F(1, 2**20)))]
+        lines = [self._direct_lines(inp, k) for k in PROBE]
         outs = ctx.driver("drv_concat").run(lines)
         if not (outs[0] == outs[1] == outs[2]):
             res.case(inp, nontrivial=False, tags=tags + ["tight-skipped"])
@@ -953,13 +1449,10 @@ class C12(PropertyCheck):
                 res.disagree(inp, o[:300], str(impl)[:300], "unit output", w)
 
     def _shipped(self, ctx, res, n):
-        v = self._variant()
         for _ in range(n):
-            case = shipped_case(ctx.rng)
-            self._compare_shipped(ctx, res, case)
+            self._compare_shipped(ctx, res, shipped_case(ctx.rng))
 
     def _compare_shipped(self, ctx, res, case):
-        v = self._variant()
         w = {"kind": "shipped", "case": case}
         try:
             instrs = shipped_instructions(case)
@@ -971,8 +1464,8 @@ class C12(PropertyCheck):
         st, payload, starts, perm = run_compile_real(comp, gates, case["mode"])
         mcase = {"nq": case["n"], "mode": case["mode"], "gates": instrs}
         lines = []
-        for tau in (TAU, TAU * (1 + F(1, 2**20)), TAU * (1 - F(1, 2**20))):
-            l, id2lab = case_instr_lines(mcase, v, starts, perm, tau)
+        for k in PROBE:
+            l, id2lab = case_instr_lines(mcase, starts, perm, k)
             lines.append(l)
         outs = ctx.driver("drv_concat").run(lines)
         tags = ["shipped=" + case["compiler"], "shape=" + case["shape"], f"mode={case['mode']}"]
@@ -986,7 +1479,7 @@ class C12(PropertyCheck):
         elif st == "err" and mpayload != payload:
             res.disagree(case, mpayload, payload, "error kind (shipped compiler)", w)
         elif st == "ok":
-            scale = max([1.0] + [abs(x) for _l, tl, _c in payload for x in tl])
+            scale = max([1.0] + [abs(x) for _l, tl, _c in payload if tl is not None for x in tl])
             d = compare_channels(mpayload, payload, exact=False, scale=scale)
             if d:
                 res.disagree(case, "model", "impl", d, w)
@@ -1013,102 +1506,65 @@ class C12(PropertyCheck):
                                 g["pulses"] = [[l, [c[0], fs(c[1]) if c[0] == "s" else [fs(x) for x in c[1]]]] for l, c in g["pulses"]]
                         self._compare_synth(ctx, res, {"nq": 1, "mode": mode, "gates": gates}, ["family=pairs"])
         res.notes.append("deterministic family: all 9 pairs of pulse kinds x 6 step-ratio pairs (2^-30..2^15) x gap/no gap x 3 modes on one channel")
+        self._limits(ctx, res)
+        res.notes.append("deterministic family at the tolerance limits: idle gaps of 2^-31..2^-27 of the total time (same channel / "
+                         "another channel is the long one), channel ends 2^-21..2^-18 of the smallest step before the final time")
         for i in range(500 * k):
             self._compare_synth(ctx, res, gen_case(rng, wild=(i % 2 == 0)), ["synthetic", "wild" if i % 2 == 0 else "comparable"])
         self._direct(ctx, res, 300 * k, malformed=False)
         self._direct(ctx, res, 300 * k, malformed=True)
         self._units(ctx, res, 600 * k)
         self._shipped(ctx, res, 60 * k)
-        res.notes.append(f"first-pulse test in the tree: {self._variant()}; tau = 1/10^6 exactly in the model; "
-                         "cases whose outcome changes for tau*(1+-2^-20) are skipped (tag tight-skipped)")
+        res.notes.append(f"source as read: {describe(self._desc())}; the model uses the decimal constants exactly; cases whose "
+                         "outcome changes when the tolerance constants are scaled by 1+-2^-20 are skipped (tag tight-skipped)")
 
     # -----------------------------------------------------------------------------------------
     def oracle_replay(self, ctx, w):
-        v = self._variant()
+        full = bool(w.get("full"))
         if w["kind"] == "synthetic":
             case = w["case"]
             st, payload, starts, perm = run_compile_impl(case)
             try:
-                chans = windows_of(case, ordered_instr(case, [F(x) for x in starts] if starts else None, perm))
+                chans = windows_of(ordered_instr(case, starts, perm))
             except Exception as e:
-                return False, "could not reconstruct the schedule: " + repr(e)
-            empty = sorted(lab for lab, ws in chans.items() if not ws)
-            chans = {lab: ws for lab, ws in chans.items() if ws}
-            pre = all(precondition(ws) for ws in chans.values())
-            if not pre:
-                return False, "precondition not met (overlapping / malformed / mixed-kind instructions on a channel)"
-            if not chans and not empty:
-                return False, "no control channel"
-            if not w.get("full") and not sep_all(chans, v):
-                # witnesses of recorded findings carry "full": true and are judged at full strength
-                return False, "outside the scale hypothesis Sep (the class of the recorded finding), not judged"
-            if not w.get("full") and not resolution_ok(chans):
-                return False, "final time >= 2^40 steps of the finest pulse (float resolution, recorded finding class), not judged"
+                return False, "not judged: could not reconstruct the schedule: " + repr(e)
+            if not any(chans.values()):
+                if st == "err":
+                    return True, f"compile raised {payload} for a gate list without any pulse"
+                return False, "no control pulse"
+            ok, why = hypothesis({l: ws for l, ws in chans.items() if ws}, full)
+            if not ok:
+                return False, "not judged: " + why
             if st != "ok":
                 return True, f"compile raised {payload} for a valid schedule"
-            got = {lab: (tl, cf) for lab, tl, cf in payload}
-            if set(got) != set(chans) | set(empty):
-                return True, f"channels {sorted(got)} returned, {sorted(set(chans) | set(empty))} used"
-            for lab in empty:
-                if got[lab][0] is not None:
-                    return True, f"channel {lab} has only zero-duration instructions but is compiled to {got[lab][0]}"
-            for lab, ws in chans.items():
-                d = check_channel(ws, *got[lab])
-                if d:
-                    return True, f"channel {lab}: {d}"
-            return False, "every channel is the scheduled waveform"
+            return judge(chans, {lab: (tl, cf) for lab, tl, cf in payload}, full)
         if w["kind"] == "direct":
             inp = w["input"]
-            chans = {}
-            for i, ws in enumerate(inp["direct"]):
-                lst = []
-                for s, tl, cf in ws:
-                    if tl[0] == "s":
-                        lst.append((F(s), [F(0), F(tl[1])], [F(cf[1])], "discrete"))
-                    else:
-                        t = [F(x) for x in tl[1]]
-                        c = [F(x) for x in cf[1]]
-                        lst.append((F(s), t, c, "discrete" if len(c) == len(t) - 1 else ("continuous" if len(c) == len(t) else "bad")))
-                chans[i] = lst
-            if not chans or not all(ws and precondition(ws) for ws in chans.values()):
-                return False, "precondition not met"
-            if not w.get("full") and not sep_all(chans, v):
-                return False, "outside the scale hypothesis Sep (the class of the recorded finding), not judged"
-            if not w.get("full") and not resolution_ok(chans):
-                return False, "final time >= 2^40 steps of the finest pulse (float resolution, recorded finding class), not judged"
+            chans = {i: [window(s, tl, cf) for s, tl, cf in ws if not (tl[0] == "s" and F(tl[1]) == 0)]
+                     for i, ws in enumerate(inp["direct"])}
+            if any(len(ws) != len(inp["direct"][i]) for i, ws in chans.items()):
+                return False, "not judged: zero-duration instruction handed to _concatenate_pulses (compile drops them)"
+            if not any(chans.values()):
+                return False, "no control pulse"
+            ok, why = hypothesis({l: ws for l, ws in chans.items() if ws}, full)
+            if not ok:
+                return False, "not judged: " + why
             st, payload = self._run_direct_impl(inp)
             if st != "ok":
                 return True, f"_concatenate_pulses raised {payload} for a valid schedule"
-            for i, tl, cf in payload:
-                d = check_channel(chans[i], tl, cf)
-                if d:
-                    return True, f"channel {i}: {d}"
-            return False, "every channel is the scheduled waveform"
+            return judge(chans, {i: (tl, cf) for i, tl, cf in payload}, full)
         if w["kind"] == "shipped":
             case = w["case"]
             instrs = shipped_instructions(case)
             comp, gates = build_shipped(case)
             st, payload, starts, perm = run_compile_real(comp, gates, case["mode"])
-            if st != "ok":
+            if st == "err":
                 return True, f"{case['compiler']} compiler (shape {case['shape']}): compile raised {payload}"
-            mcase = {"nq": case["n"], "mode": case["mode"], "gates": [
-                dict(g, tl=[g["tl"][0], g["tl"][1]]) for g in instrs]}
-            chans = windows_of(mcase, ordered_instr(mcase, [F(x) for x in starts] if starts else None, perm))
-            if not chans:
-                return False, "no control channel"
-            if not w.get("full") and not (sep_all(chans, v) and resolution_ok(chans)):
-                return False, "outside the scale hypothesis Sep (the class of the recorded finding), not judged"
-            # float schedules: only the structural clauses are checked exactly
-            for lab, tl, cf in payload:
-                g = list(tl)
-                if g[0] != 0.0 or any(g[i + 1] <= g[i] for i in range(len(g) - 1)):
-                    return True, f"channel {lab}: grid does not start at 0 / is not strictly increasing: {g[:6]}"
-                kinds = {x[3] for x in chans[lab]}
-                if kinds == {"discrete"} and len(cf) != len(g) - 1:
-                    return True, f"channel {lab}: {len(cf)} coefficients for {len(g)} grid points (discrete)"
-                if kinds == {"continuous"} and len(cf) != len(g):
-                    return True, f"channel {lab}: {len(cf)} coefficients for {len(g)} grid points (continuous)"
-            return False, "grids start at 0, increase strictly, lengths fit"
+            mcase = {"nq": case["n"], "mode": case["mode"], "gates": instrs}
+            chans = windows_of(ordered_instr(mcase, starts, perm))
+            if st == "none" or not any(chans.values()):
+                return (True, "compile returned nothing for a gate list with pulses") if any(chans.values()) else (False, "no control pulse")
+            return judge(chans, {lab: (tl, cf) for lab, tl, cf in payload}, full)
         if w["kind"] == "zero-duration":
             from qutip_qip.device import LinearSpinChain
             from qutip_qip.circuit import QubitCircuit
@@ -1143,65 +1599,43 @@ class C12(PropertyCheck):
             return False, "unit comparison only"
         return False, "unknown witness kind"
 
-    def _valid_case(self, rng, respect_sep=True):
-        """random synthetic case meeting the theorem's hypotheses (checked independently in Python)"""
-        for _ in range(200):
-            case = gen_case(rng, wild=rng.random() < 0.5)
-            yield case
-
-    def _sweep(self, ctx, n, only_sep):
+    def _sweep(self, ctx, n_dyadic, n_float, n_shipped):
         rng = ctx.rng
-        v = self._variant()
-        done = 0
-        tries = 0
-        while done < n and tries < 20 * n:
-            tries += 1
-            case = gen_case(rng, wild=rng.random() < 0.5)
-            st, payload, starts, perm = run_compile_impl(case)
-            try:
-                chans = windows_of(case, ordered_instr(case, [F(x) for x in starts] if starts else None, perm))
-            except Exception:
-                continue
-            chans = {lab: ws for lab, ws in chans.items() if ws}
-            if not chans or not all(precondition(ws) for ws in chans.values()):
-                continue
-            if only_sep and not (sep_all(chans, v) and resolution_ok(chans)):
-                continue
-            done += 1
+        judged = 0
+        for i in range(n_dyadic + n_float):
+            case = gen_case(rng, wild=rng.random() < 0.5) if i < n_dyadic else gen_float_case(rng)
             w = {"kind": "synthetic", "case": case}
-            f, d = self.oracle_replay(ctx, w)
+            try:
+                f, d = self.oracle_replay(ctx, w)
+            except Exception as e:
+                f, d = True, "oracle crashed: " + repr(e)
+            judged += not d.startswith("not judged")
             if f:
                 yield w, d
-
-    def oracle_always(self, ctx):
-        # inputs outside Sep are excluded explicitly by the theorems (hypothesis `Sep`), see notes/C12.md
-        yield from self._sweep(ctx, 120, only_sep=True)
-        for _ in range(10):
-            w = {"kind": "shipped", "case": shipped_case(ctx.rng)}
-            if shipped_excluded(w["case"]):
-                continue
+        for _ in range(n_shipped):
+            w = {"kind": "shipped", "case": shipped_case(rng)}
             try:
                 f, d = self.oracle_replay(ctx, w)
             except Exception as e:
                 f, d = True, "oracle crashed: " + repr(e)
             if f:
                 yield w, d
+        ctx.log(f"property sweep: {judged} of {n_dyadic + n_float} synthetic schedules inside the judged class, {n_shipped} shipped")
+
+    def oracle_always(self, ctx):
+        # judged on every schedule except the resolution class (gaps / steps <= 1e-12 of the total time), which the theorems
+        # exclude explicitly (SmallGap exception set, ChainR); see notes/C12.md
+        yield from self._sweep(ctx, 150, 250, 15)
 
     def oracle_search(self, ctx, budget_s):
         t0 = time.time()
-        while time.time() - t0 < budget_s:
-            for w, d in self._sweep(ctx, 50, only_sep=True):
+        # inputs at the tolerance limits first (the correspondence families), then random
+        for w in limit_witnesses():
+            f, d = self.oracle_replay(ctx, w)
+            if f:
                 yield w, d
-            for _ in range(5):
-                w = {"kind": "shipped", "case": shipped_case(ctx.rng)}
-                if shipped_excluded(w["case"]):
-                    continue
-                try:
-                    f, d = self.oracle_replay(ctx, w)
-                except Exception as e:
-                    f, d = True, "oracle crashed: " + repr(e)
-                if f:
-                    yield w, d
+        while time.time() - t0 < budget_s:
+            yield from self._sweep(ctx, 60, 120, 5)
 
     def finding_matches(self, witness, finding):
         from vlib.core import canon
